@@ -511,6 +511,10 @@ fn builtin_round(args: Vec<Rc<Object>>) -> Result<Rc<Object>, String> {
     match args[0].as_ref() {
         Object::Float(f) => {
             if let Object::Integer(n) = args[1].as_ref() {
+                // 10^18 is the largest power of ten an i64 can hold
+                if !(0..=18).contains(n) {
+                    return Err(String::from("precision should be between 0 and 18"));
+                }
                 let multiplier = 10i64.pow(*n as u32);
                 let rounded = (f * multiplier as f64).round() / multiplier as f64;
                 Ok(Rc::new(Object::Float(rounded)))
